@@ -23,7 +23,7 @@ import os
 
 from .core import AnalysisError, unparse
 from .dataflow import Flow, chain, call_name, _walk_no_scopes, order_splits
-from .poly import Poly, Con, le, lt, feasible, entails
+from .poly import Poly, Con, le, lt, feasible, entails, _tighten
 
 
 class CurFlow(Flow):
@@ -231,6 +231,7 @@ class Interp(object):
                  call_effects=None, max_rounds=12, consts=None,
                  hypotheses=(), inline_methods=None):
         self.fn = fn
+        self._no_ifexp_split = bool(os.environ.get("RIGVERIF_NO_IFEXP_SPLIT"))
         # [(condition text, truth value)]: analyse only the executions on
         # which these conditions have these values (trace partition chosen by
         # the rule); contradicting branch edges are unreachable
@@ -437,6 +438,29 @@ class Interp(object):
             defs = [d for d in defs if d.var != enum[0]]
         if not defs:
             return cons
+        # ``x = a if c else b``: the two cases separately, then joined (the
+        # composite ite(c, a, b) alone forgets which case gave which value)
+        if len(defs) == 1 and defs[0].mode == "assign" and isinstance(
+                defs[0].value, ast.IfExp) and not self._no_ifexp_split:
+            d = defs[0]
+            try:
+                sides = []
+                for pol_, e in ((True, d.value.body), (False,
+                                                       d.value.orelse)):
+                    extra = flow.cond_constraints(d.value.test, pol_, n)
+                    c_ = cons + list(extra)
+                    if extra and not self._feasible(c_):
+                        sides.append(None)
+                        continue
+                    v_ = flow.sym(e, n)
+                    if not self._numeric(v_):
+                        raise AnalysisError("not numeric")
+                    sides.append(self._assign(c_, d.var, v_))
+                if sides[0] is None and sides[1] is None:
+                    return None
+                return self._join(sides[0], sides[1])
+            except AnalysisError:
+                pass
         # evaluate right-hand sides in the pre-state
         values = []
         for d in defs:
@@ -726,13 +750,25 @@ class Interp(object):
         # one step of transitivity on each side (x <= t on one path through
         # a temporary, x <= t directly on the other: neither side *states*
         # the bound the two share)
-        pool = dedupe(pool + _pair_sums(a) + _pair_sums(b))
         for c in pool:
             r = c.row(self.integer)
             if (r in ka or self.entails_state(a, c)) and \
                     (r in kb or self.entails_state(b, c)):
                 out.append(c)
-        return dedupe(out)
+        out = dedupe(out)
+        # (only what the constraints kept so far do not already say: a
+        # weaker copy of a kept bound would be a new constraint on every
+        # round of the fixpoint)
+        seen = set(c.row(self.integer) for c in out)
+        for c in dedupe(_pair_sums(a) + _pair_sums(b)):
+            c = _tighten(c, self.integer)
+            r = c.row(self.integer)
+            if r in seen or self.entails_state(out, c):
+                continue
+            if self.entails_state(a, c) and self.entails_state(b, c):
+                out.append(c)
+                seen.add(r)
+        return out
 
     def _same(self, a, b):
         if a is None or b is None:
